@@ -7,6 +7,7 @@ import (
 	"fmt"
 	"io"
 	"net/http"
+	"net/url"
 	"os"
 	"strings"
 	"sync"
@@ -126,7 +127,13 @@ func c15Run(run *ev.Run, u *uni.U, origins []string, wans, dans []string) {
 // c15RunOpt: with warm, the same Distributor first performs a round in which
 // every log is valid and the distributor answers 200 (state carried from one
 // polling round into the next - a cache, a reused buffer - is then in play).
-func c15RunOpt(run *ev.Run, u *uni.U, origins []string, wans, dans []string, warm bool) {
+func c15RunOpt(run *ev.Run, u *uni.U, origins []string, wans, dans []string, warm bool, slashed ...bool) {
+	// wk: the configured witness key; optionally one whose NAME contains a
+	// slash (the target path must still name it in ONE escaped segment).
+	wk := u.W1
+	if len(slashed) > 0 && slashed[0] {
+		wk = u.W4
+	}
 	var logs []*c15Log
 	for i, o := range origins {
 		key := u.K1
@@ -137,46 +144,46 @@ func c15RunOpt(run *ev.Run, u *uni.U, origins []string, wans, dans []string, war
 		cl, _ := config.NewLog(o, key.VKey, "http://log.example/")
 		lg := &c15Log{cfg: cl, l: l, wans: wans[i], dans: dans[i]}
 		text := uni.Body(o, uint64(3+i), u.Main.Root(3+i))
-		lg.valid = u.Sign(text, key.Signer, u.W1.CosigSigner)
+		lg.valid = u.Sign(text, key.Signer, wk.CosigSigner)
 		switch lg.wans {
 		case "valid":
-			lg.cp = u.Sign(text, key.Signer, u.W1.CosigSigner)
+			lg.cp = u.Sign(text, key.Signer, wk.CosigSigner)
 		case "valid-70KiB":
 			// 70 KiB of extension lines: legitimate, must travel unabridged.
 			var ext []string
 			for j := 0; j < 140; j++ {
 				ext = append(ext, fmt.Sprintf("x%05d %s", j, strings.Repeat(string(rune('a'+j%26)), 504)))
 			}
-			lg.cp = u.Sign(uni.Body(o, uint64(3+i), u.Main.Root(3+i), ext...), key.Signer, u.W1.CosigSigner)
+			lg.cp = u.Sign(uni.Body(o, uint64(3+i), u.Main.Root(3+i), ext...), key.Signer, wk.CosigSigner)
 		case "valid-unknown-sig-lines":
 			// Signature lines by keys the distributor does not know, before
 			// and after the witness's line: "exactly the bytes".
 			plain := uni.AppendSigLines(u.Sign(text, key.Signer), uni.JunkSigLines(2))
-			_, ws, _ := uni.SplitNote(u.Sign(text, u.W1.CosigSigner))
+			_, ws, _ := uni.SplitNote(u.Sign(text, wk.CosigSigner))
 			lg.cp = uni.AppendSigLines(uni.AppendSigLines(plain, ws[0]+"\n"), uni.JunkSigLines(1))
 		case "wrong-log-key":
 			other := u.K2
 			if key.Name == u.K2.Name {
 				other = u.K1
 			}
-			lg.cp = u.Sign(text, other.Signer, u.W1.CosigSigner)
+			lg.cp = u.Sign(text, other.Signer, wk.CosigSigner)
 		case "no-witness-sig":
 			lg.cp = u.Sign(text, key.Signer)
 		case "invalid-witness-sig":
 			good := u.Sign(text, key.Signer)
 			bad := bytes.Repeat([]byte{7}, 72)
-			lg.cp = uni.AppendSigLines(good, uni.SigLine(u.W1.CosigVerif.Name(), u.W1.CosigVerif.KeyHash(), bad))
+			lg.cp = uni.AppendSigLines(good, uni.SigLine(wk.CosigVerif.Name(), wk.CosigVerif.KeyHash(), bad))
 		case "corrupted":
-			good := u.Sign(text, key.Signer, u.W1.CosigSigner)
+			good := u.Sign(text, key.Signer, wk.CosigSigner)
 			lg.cp = append([]byte{}, good...)
 			lg.cp[len(o)+1] ^= 1 // size digit
 		case "other-logs-checkpoint":
 			oo := origins[(i+1)%len(origins)] + "/elsewhere"
-			lg.cp = u.Sign(uni.Body(oo, 9, u.Main.Root(5)), key.Signer, u.W1.CosigSigner)
+			lg.cp = u.Sign(uni.Body(oo, 9, u.Main.Root(5)), key.Signer, wk.CosigSigner)
 		case "two-witness-sigs":
-			lg.cp = u.Sign(text, key.Signer, u.W1.CosigSigner, u.W2.CosigSigner)
+			lg.cp = u.Sign(text, key.Signer, wk.CosigSigner, u.W2.CosigSigner)
 		case "wrong-origin":
-			lg.cp = u.Sign(uni.Body(o+"x", uint64(3+i), u.Main.Root(3+i)), key.Signer, u.W1.CosigSigner)
+			lg.cp = u.Sign(uni.Body(o+"x", uint64(3+i), u.Main.Root(3+i)), key.Signer, wk.CosigSigner)
 		case "foreign-witness-sig-only":
 			// cosigned by some other witness, not by the configured one
 			lg.cp = u.Sign(text, key.Signer, u.W2.CosigSigner)
@@ -200,7 +207,7 @@ func c15RunOpt(run *ev.Run, u *uni.U, origins []string, wans, dans []string, war
 			if i%2 == 0 {
 				k = u.K2
 			}
-			lg.cp = u.Sign(uni.Body(origins[i]+"/neighbour", 4, u.Main.Root(4)), k.Signer, u.W1.CosigSigner)
+			lg.cp = u.Sign(uni.Body(origins[i]+"/neighbour", 4, u.Main.Root(4)), k.Signer, wk.CosigSigner)
 		} else {
 			lg.cp = src.cp
 		}
@@ -210,7 +217,7 @@ func c15RunOpt(run *ev.Run, u *uni.U, origins []string, wans, dans []string, war
 	for _, l := range logs {
 		cfgs = append(cfgs, l.cfg)
 	}
-	d, err := rest.NewDistributor("http://dist.example", &http.Client{Transport: tr}, cfgs, u.W1.CosigVerif, &c15Witness{logs: logs})
+	d, err := rest.NewDistributor("http://dist.example", &http.Client{Transport: tr}, cfgs, wk.CosigVerif, &c15Witness{logs: logs})
 	if err != nil {
 		ev.Internal("NewDistributor: %v", err)
 	}
@@ -234,7 +241,7 @@ func c15RunOpt(run *ev.Run, u *uni.U, origins []string, wans, dans []string, war
 	}
 	derr := d.DistributeOnce(context.Background())
 
-	rep := map[string]any{"kind": "distribute", "origins": origins, "witness_answers": wans, "distributor_answers": dans, "after_a_valid_round": warm}
+	rep := map[string]any{"kind": "distribute", "origins": origins, "witness_answers": wans, "distributor_answers": dans, "after_a_valid_round": warm, "witness_name_with_slash": wk.Name == u.W4.Name}
 	desc := func(s string) string {
 		w := ""
 		if warm {
@@ -252,7 +259,7 @@ func c15RunOpt(run *ev.Run, u *uni.U, origins []string, wans, dans []string, war
 		sig := func(k string) string {
 			return fmt.Sprintf("%s witness-answer=%s distributor-answer=%s position=%s", k, l.wans, l.dans, posKind(i, len(logs)))
 		}
-		wantPath := fmt.Sprintf("/distributor/v0/logs/%s/byWitness/%s/checkpoint", l.cfg.ID, u.W1.CosigVerif.Name())
+		wantPath := fmt.Sprintf("/distributor/v0/logs/%s/byWitness/%s/checkpoint", l.cfg.ID, url.PathEscape(wk.CosigVerif.Name()))
 		var mine []c15Put
 		for _, p := range tr.puts {
 			if strings.Contains(p.Path, "/logs/"+l.cfg.ID+"/") {
@@ -399,6 +406,11 @@ func c15(tier string) int {
 						// the same assignment as the SECOND polling round of a Distributor
 						c15RunOpt(run, u, origins[:a.n], a.wans, a.dans, true)
 						k++
+					}
+					if a.n <= 2 {
+						// ... and with a witness key whose name contains '/'.
+						c15RunOpt(run, u, origins[:a.n], a.wans, a.dans, false, true)
+						k++
 						run.Distinct(fmt.Sprint("warm", a.n, a.wans, a.dans))
 					}
 					mu.Lock()
@@ -479,7 +491,7 @@ func c15(tier string) int {
 	run.Set("exhaustive", true)
 	run.Set("witness_answer_menu", c15WitnessAnswers)
 	run.Set("distributor_answer_menu", c15DistAnswers)
-	run.Set("rule", fmt.Sprintf("the real Distributor.DistributeOnce with a scripted witness and an in-process stub distributor (RoundTripper): ALL assignments of (witness answer x distributor answer) for 1 and 2 logs, each also as the second polling round of a Distributor whose first round was entirely valid; for 3..6 logs all assignments with at most %d logs (1-2 for 5-6 logs) deviating from (valid, 200) at every position. Oracle: exactly one PUT per log whose witness answer is valid, at /distributor/v0/logs/<id>/byWitness/<witness key name>/checkpoint, body byte-identical to what the witness reported; no PUT for any other log; every log attempted regardless of earlier failures; error iff some log failed, with the right count; then one more round on the same Distributor in which everything is valid: every log pushed exactly once, exact bytes, no error. The two unusual valid shapes (70 KiB of extension lines; unknown signature lines around the witness line) are combined with distributor answers 200, 500 and body-left-unread only. distinct_nontrivial = distinct assignments", k))
+	run.Set("rule", fmt.Sprintf("the real Distributor.DistributeOnce with a scripted witness and an in-process stub distributor (RoundTripper): ALL assignments of (witness answer x distributor answer) for 1 and 2 logs, each also as the second polling round of a Distributor whose first round was entirely valid; for 3..6 logs all assignments with at most %d logs (1-2 for 5-6 logs) deviating from (valid, 200) at every position. For 1 and 2 logs every assignment also with a witness key whose name contains a slash (the path names it in one escaped segment). Oracle: exactly one PUT per log whose witness answer is valid, at /distributor/v0/logs/<id>/byWitness/<witness key name>/checkpoint, body byte-identical to what the witness reported; no PUT for any other log; every log attempted regardless of earlier failures; error iff some log failed, with the right count; then one more round on the same Distributor in which everything is valid: every log pushed exactly once, exact bytes, no error. The two unusual valid shapes (70 KiB of extension lines; unknown signature lines around the witness line) are combined with distributor answers 200, 500 and body-left-unread only. distinct_nontrivial = distinct assignments", k))
 	run.Assumption("a checkpoint carrying a second, foreign witness signature is outside the property's claim and is not judged; a connection error is modelled as failing before the request body is read")
 	return run.Finish()
 }
